@@ -70,6 +70,15 @@ def cell_cases(draw, cell):
         if lk == "scalar-expr" and draw(st.integers(0, 2)) == 0:
             # a Parameter as coefficient: p*x + y (its Jacobian row is [p, 1]: variable-free but not constant)
             lhs = ["bin", "+", ["bin", "*", ["param", "p"], g.var_leaf()], g.var_leaf()]
+        elif lk == "scalar-expr" and draw(st.integers(0, 2)) == 0:
+            # a vector reduction scaled / shifted / divided / negated by constants (x.sum() / 4, 2 - c @ x, ...): these
+            # nodes hand their own Jacobian rows to the solver
+            from harness.props.c03 import _wrap
+            Vr = g.pick(g.var_vector_sources(None))
+            R = draw(st.sampled_from([["vsum", Vr], ["lincomb", g.coeffs(vsize(Vr, env)), Vr, "c@x"], ["dotself", Vr, "dot"],
+                                      ["vsum", ["vpow", Vr, 2]], g.reduction(1)]))
+            lhs = ["bin", "/", R, ["const", draw(st.sampled_from(["pyint", "pyfloat", "Constant"])), draw(st.sampled_from([4, -2, 10]))]] \
+                if draw(st.integers(0, 2)) == 0 else _wrap(draw, R, g)
         shape = ()
     elif group == "V":
         vname = env["vectors"][0]["name"]
